@@ -19,7 +19,8 @@ ENCODED = ["twisted.internet.base:ReactorBase.callLater",
            "twisted.internet.base:DelayedCall.delay", "twisted.internet.base:DelayedCall.activate_delay",
            "twisted.internet.base:DelayedCall.getTime", "twisted.internet.base:DelayedCall.active",
            "twisted.internet.base:DelayedCall.__le__", "twisted.internet.base:DelayedCall.__lt__"]
-BOUNDS = {"quick": {"n": 3, "k": 3, "m": 1}, "thorough": {"n": 4, "k": 5, "m": 2}}
+BOUNDS = {"quick": {"n": 3, "ni": 2, "k_op": 4, "k_run": 3, "k_in": 2, "m": 1, "nd": 1},
+          "thorough": {"n": 4, "ni": 3, "k_op": 5, "k_run": 5, "k_in": 4, "m": 2, "nd": 2}}
 B = {}
 PADS = 51           # concrete cancelled far-future heap entries used to reach the compaction branch
 FAR = 1.0e9         # their time; all symbolic times and the clock stay below it in step_compact
@@ -272,6 +273,7 @@ def history(t0: float, n: int, d0: float, d1: float, d2: float, d3: float, tm: b
     pre: -BIG <= t0 <= BIG and -BIG <= r <= BIG and (r >= 0 or act == 3)
     pre: 0 <= a1 <= BIG and 0 <= a2 <= BIG
     pre: who == -1 or not tm
+    pre: n <= B['ni'] or (who == -1 and (tm or act == 0))
     post: _
     """
     n = _pick(n, 2, B['n'])
@@ -301,30 +303,37 @@ def history(t0: float, n: int, d0: float, d1: float, d2: float, d3: float, tm: b
     return bool(W.ok)
 
 
-def _state_pre(k, m, cm, drift, ts, ls, us, vs):
-    # bounds and the representation invariant of the pre-state (symbolic; & keeps it to one constraint)
-    ok = (0 <= k) & (k <= B['k']) & (0 <= m) & (m <= B['m']) & (0 <= cm) & (drift >= 0)
-    for i in range(5):
-        ok = ok & (-BIG <= ts[i]) & (ts[i] <= BIG) & (0 <= ls[i]) & (ls[i] <= BIG)
-    for i in range(2):
-        ok = ok & (-BIG <= us[i]) & (us[i] <= BIG) & (0 <= vs[i]) & (vs[i] <= BIG)
-    for p in range(1, 5):
-        ok = ok & ((k <= p) | (ts[(p - 1) >> 1] <= ts[p]))      # heap order on .time
+def _state_pre(kmax, k, m, cm, drift, ts, us, dx, dl, dy, dm):
+    # bounds and the representation invariant of the pre-state; int parts fork in Python (they are
+    # fixed by the shards), real parts are one conjunction
+    if not (0 <= k <= kmax and 0 <= m <= B['m'] and 0 <= cm < 2 ** (k + m) and drift >= 0):
+        return False
+    if not (-1 <= dx < k + m and -1 <= dy < dx or dx == dy == -1):
+        return False
+    if dy >= 0 and B['nd'] < 2:
+        return False
+    ok = (0 <= dl) & (dl <= BIG) & (0 <= dm) & (dm <= BIG)
+    for i in range(k):
+        ok = ok & (-BIG <= ts[i]) & (ts[i] <= BIG)
+    for i in range(m):
+        ok = ok & (-BIG <= us[i]) & (us[i] <= BIG)
+    for p in range(1, k):
+        ok = ok & (ts[(p - 1) >> 1] <= ts[p])       # heap order on .time
     return ok
 
 
-def _build(now, k, m, cm, drift, ts, ls, us, vs, pads):
+def _build(now, k, m, cm, drift, ts, us, dx, dl, dy, dm, pads):
     W = _W(now)
     R = W.R
     ncanc = 0
-    for i in range(k):
+    for i in range(k + m):
         c = (cm >> i) & 1
         ncanc += c
-        W.adopt(ts[i], ls[i], c, False)
-    for i in range(m):
-        c = (cm >> (k + i)) & 1
-        ncanc += c
-        W.adopt(us[i], vs[i], c, True)
+        d = dl if i == dx else (dm if i == dy else 0.0)
+        if i < k:
+            W.adopt(ts[i], d, c, False)
+        else:
+            W.adopt(us[i - k], d, c, True)
     if pads:
         W.residue = True
         if _NoTracing is not None and _is_tracing():
@@ -345,91 +354,90 @@ def _pad(R, pads):
         R._pendingTimedCalls.append(c)
 
 
+def _ncancelled(R):
+    return sum(1 for x in R._pendingTimedCalls + R._newTimedCalls if x.cancelled)
+
+
 def step_op(now: float, k: int, m: int, cm: int, drift: int,
-            t0: float, t1: float, t2: float, t3: float, t4: float,
-            l0: float, l1: float, l2: float, l3: float, l4: float,
-            u0: float, u1: float, v0: float, v1: float,
-            act: int, tgt: int, r: float) -> bool:
+            t0: float, t1: float, t2: float, t3: float, t4: float, u0: float, u1: float,
+            dx: int, dl: float, dy: int, dm: float, act: int, tgt: int, r: float) -> bool:
     """
-    pre: _state_pre(k, m, cm, drift, (t0, t1, t2, t3, t4), (l0, l1, l2, l3, l4), (u0, u1), (v0, v1))
-    pre: cm < 2 ** (k + m) and -BIG <= now <= BIG and -BIG <= r <= BIG
+    pre: _state_pre(B['k_op'], k, m, cm, drift, (t0, t1, t2, t3, t4), (u0, u1), dx, dl, dy, dm)
+    pre: -BIG <= now <= BIG and -BIG <= r <= BIG
     pre: 0 <= act <= 4 and (r >= 0 or act == 3)
     pre: 0 <= tgt < k + m or (tgt == 0 and (act == 0 or act == 4))
     post: _
     """
-    k = _pick(k, 0, B['k'])
+    k = _pick(k, 0, B['k_op'])
     m = _pick(m, 0, B['m'])
     cm = _pick(cm, 0, 2 ** (k + m) - 1)
+    dx = _pick(dx, -1, k + m - 1)
+    dy = _pick(dy, -1, k + m - 1)
     act = _pick(act, 0, 4)
     tgt = _pick(tgt, 0, max(0, k + m - 1))
-    W = _build(now, k, m, cm, drift, (t0, t1, t2, t3, t4), (l0, l1, l2, l3, l4), (u0, u1), (v0, v1), 0)
-    c0 = W.R._cancellations
+    W = _build(now, k, m, cm, drift, (t0, t1, t2, t3, t4), (u0, u1), dx, dl, dy, dm, 0)
+    d0 = W.R._cancellations - _ncancelled(W.R)
     W.modify(act, tgt, r)       # act 0: nothing, the step is timeout() alone
     W.check()
-    if act == 1 and cm >> tgt & 1 == 0 and W.R._cancellations != c0 + 1:
-        return False
     W.check_timeout()
     W.check()
+    if W.R._cancellations - _ncancelled(W.R) != d0:
+        return False            # no compaction here: the lazy-deletion count keeps its offset
     cover()
     return bool(W.ok)
 
 
 def step_run(now: float, k: int, m: int, cm: int, drift: int,
-             t0: float, t1: float, t2: float, t3: float, t4: float,
-             l0: float, l1: float, l2: float, l3: float, l4: float,
-             u0: float, u1: float, v0: float, v1: float,
-             who: int, act: int, tgt: int, r: float) -> bool:
+             t0: float, t1: float, t2: float, t3: float, t4: float, u0: float, u1: float,
+             dx: int, dl: float, dy: int, dm: float, who: int, act: int, tgt: int, r: float) -> bool:
     """
-    pre: _state_pre(k, m, cm, drift, (t0, t1, t2, t3, t4), (l0, l1, l2, l3, l4), (u0, u1), (v0, v1))
-    pre: cm < 2 ** (k + m) and -BIG <= now <= BIG and -BIG <= r <= BIG
+    pre: _state_pre(B['k_run'] if act == 0 else B['k_in'], k, m, cm, drift, (t0, t1, t2, t3, t4), (u0, u1), dx, dl, dy, dm)
+    pre: -BIG <= now <= BIG and -BIG <= r <= BIG
     pre: 0 <= act <= 5 and (r >= 0 or act == 3) and 1 <= k + m
     pre: 0 <= who < k + m and (0 <= tgt < k + m) and (act != 0 or who + tgt == 0)
     post: _
     """
-    k = _pick(k, 0, B['k'])
+    k = _pick(k, 0, B['k_run'])
     m = _pick(m, 0, B['m'])
     cm = _pick(cm, 0, 2 ** (k + m) - 1)
+    dx = _pick(dx, -1, k + m - 1)
+    dy = _pick(dy, -1, k + m - 1)
     act = _pick(act, 0, 5)
     who = _pick(who, 0, k + m - 1)
     tgt = _pick(tgt, 0, k + m - 1)
-    W = _build(now, k, m, cm, drift, (t0, t1, t2, t3, t4), (l0, l1, l2, l3, l4), (u0, u1), (v0, v1), 0)
-    d0 = W.R._cancellations - sum(W.ms[j] == 2 for j in range(k + m))
+    W = _build(now, k, m, cm, drift, (t0, t1, t2, t3, t4), (u0, u1), dx, dl, dy, dm, 0)
+    d0 = W.R._cancellations - _ncancelled(W.R)
     W.inner = (who, act, tgt, r)
     W.iterate()
     W.check()
-    # no compaction can happen here (<= 7 cancellations): the lazy-deletion count keeps its offset
-    if W.R._cancellations - _ncancelled(W.R) != d0:
-        return False
     W.check_timeout()
     W.check()
+    if W.R._cancellations - _ncancelled(W.R) != d0:
+        return False            # no compaction here (<= 8 cancellations): the count keeps its offset
     cover()
     return bool(W.ok)
 
 
-def _ncancelled(R):
-    return sum(1 for x in R._pendingTimedCalls + R._newTimedCalls if x.cancelled)
-
-
 def step_compact(now: float, k: int, m: int, cm: int, drift: int,
-                 t0: float, t1: float, t2: float, t3: float, t4: float,
-                 l0: float, l1: float, l2: float, l3: float, l4: float,
-                 u0: float, u1: float, v0: float, v1: float,
-                 who: int, act: int, tgt: int, r: float) -> bool:
+                 t0: float, t1: float, t2: float, t3: float, t4: float, u0: float, u1: float,
+                 dx: int, dl: float, dy: int, dm: float, who: int, act: int, tgt: int, r: float) -> bool:
     """
-    pre: _state_pre(k, m, cm, drift, (t0, t1, t2, t3, t4), (l0, l1, l2, l3, l4), (u0, u1), (v0, v1))
-    pre: cm < 2 ** (k + m) and -BIG <= now <= BIG and -BIG <= r <= BIG
-    pre: (act == 0 or act == 1 or act == 5) and r >= 0 and 1 <= k + m and drift <= 2
+    pre: _state_pre(B['k_in'], k, m, cm, drift, (t0, t1, t2, t3, t4), (u0, u1), dx, dl, dy, dm)
+    pre: -BIG <= now <= BIG and 0 <= r <= BIG
+    pre: (act == 0 or act == 1 or act == 5) and 1 <= k + m and drift <= 2
     pre: 0 <= who < k + m and (0 <= tgt < k + m) and (act != 0 or who + tgt == 0)
     post: _
     """
-    k = _pick(k, 0, B['k'])
+    k = _pick(k, 0, B['k_in'])
     m = _pick(m, 0, B['m'])
     cm = _pick(cm, 0, 2 ** (k + m) - 1)
+    dx = _pick(dx, -1, k + m - 1)
+    dy = _pick(dy, -1, k + m - 1)
     act = _pick(act, 0, 5)
     who = _pick(who, 0, k + m - 1)
     tgt = _pick(tgt, 0, k + m - 1)
     drift = _pick(drift, 0, 2)
-    W = _build(now, k, m, cm, drift, (t0, t1, t2, t3, t4), (l0, l1, l2, l3, l4), (u0, u1), (v0, v1), PADS)
+    W = _build(now, k, m, cm, drift, (t0, t1, t2, t3, t4), (u0, u1), dx, dl, dy, dm, PADS)
     W.inner = (who, act, tgt, r)
     W.iterate()
     R = W.R
@@ -450,9 +458,8 @@ def step_compact(now: float, k: int, m: int, cm: int, drift: int,
 
 
 HARNESSES = [
-    H(history, shards=lambda tier: [("act == %d" % a, "who == %d" % w)
-                                    for a in range(5) for w in range(-1, BOUNDS[tier]["n"])
-                                    if not (a == 0 and w >= 0)],
+    H(history, shards=lambda tier: [("act == 0",)] + [("act == %d" % a, w) for a in range(1, 5)
+                                                     for w in ("who == -1", "who >= 0")],
       timeout={"quick": 90, "thorough": 1200}),
     H(step_op, shards=lambda tier: [("act == %d" % a,) for a in range(5)],
       timeout={"quick": 90, "thorough": 1200}),
